@@ -87,6 +87,11 @@ def _close(a, b, tol=1e-9):
     return bool(numpy.all(numpy.abs(a - b) <= tol * (1.0 + numpy.abs(b))))
 
 
+def _short(v, m=24):
+    v = list(v)
+    return repr(v) if len(v) <= m else "%s...(%d entries)" % (repr(v[:m])[:-1], len(v))
+
+
 def _exact(a, b):
     a = numpy.asarray(a)
     b = numpy.asarray(b)
@@ -570,7 +575,9 @@ def check_enc(case):
     for enc in ENCS:
         probs[enc] = build_problem(fam, enc, d, k, case.get("ev"), maxcount=maxc)
     first = None
-    for enc, label, x in encodings(weights, case["scale"], case["seed"] + 17):
+    encs_ = encodings(weights, case["scale"], case["seed"] + 17)
+    encs_ = [e for e in encs_ if not e[1].startswith("multiset")] + [e for e in encs_ if e[1].startswith("multiset")]
+    for enc, label, x in encs_:
         prob, book, l = probs[enc]
         tag = "%s/%s[%s]" % (fam, enc, label)
         x0 = x.copy()
@@ -587,9 +594,9 @@ def check_enc(case):
             continue
         if not _close(lat, exp):
             fails.append(("latent-definition:%s%s" % (fam, suffix), "%s x=%r latent=%r, definition gives %r" % (tag, x.tolist(), lat.tolist(), exp)))
-        if first is None:
-            first = (tag, lat)
-        elif not _close(lat, first[1].tolist()):
+        if first is None and not suffix:
+            first = (tag, lat)              # reference: the first encoding without repeated subset members
+        elif first is not None and not _close(lat, first[1].tolist()):
             fails.append(("encodings-disagree:%s%s" % (fam, suffix), "%s latent=%r but %s latent=%r" % (tag, lat.tolist(), first[0], first[1].tolist())))
         if not _exact(numpy.asarray(lat2), lat) and not (numpy.isnan(lat).any()):
             fails.append(("latent-not-repeatable", "%s second call gives %r, first %r" % (tag, numpy.asarray(lat2).tolist(), lat.tolist())))
@@ -597,6 +604,10 @@ def check_enc(case):
             fails.append(("latent-mutates-x", "%s decision vector changed to %r" % (tag, x.tolist())))
         if label in ("set", "multiset", "int", "int64", "raw", "scaled", "bool"):
             check_evalfn(prob, book, x, lat, fails, tag)
+    if case.get("tiny"):
+        # contributions whose sum lies below the libraries' 1e-10 guard: own finding class
+        fails = [(("real-sum-below-1e-10-not-normalised" if c.startswith(("latent-definition", "encodings-disagree")) else c), m)
+                 for c, m in fails]
     # _evaluate on a few rows (only for same-shape decision vectors of one encoding)
     for enc in ("Subset", "Real"):
         rows = [x for e, lab, x in encodings(weights, case["scale"], case["seed"] + 17) if e == enc and not lab.startswith("multiset")]
@@ -634,11 +645,11 @@ def check_subset_only(case):
             fails.append(("latent-shape", "%s latent shape %r, definition has %d entries" % (tag, lat.shape, len(exp))))
             continue
         if not _close(lat, exp):
-            c = "latent-definition:%s" % fam
+            c = case.get("cls_override") or "latent-definition:%s" % fam
             if fam == "pau" and any(v <= 0.0 or v >= 1.0 for r in _fl(d["tfreq"]) for v in r):
                 c = "pau-tmajor-computed-with-tminor"       # targets fixed at 0 or 1: own finding class
             fails.append((c,
-                          "%s x=%r latent=%r, definition gives %r" % (tag, s, lat.tolist(), exp)))
+                          "%s x=%s latent=%r, definition gives %r" % (tag, _short(s), lat.tolist(), exp)))
         if first is None:
             first = lat
         elif not _close(lat, first.tolist(), 1e-12):
@@ -867,7 +878,10 @@ def check_fac_bv(case):
             cols = [[raw[i][j] for i in range(n)] for j in range(t)]
             mu = [statistics.fmean(c) for c in cols]
             sd = [statistics.pstdev(c) for c in cols]
-            sd = [s if s != 0.0 else 1.0 for s in sd]
+            for j in range(t):
+                if sd[j] <= 1e-9 * (1.0 + abs(mu[j])):
+                    undefined[j] = True          # a constant trait has no standardised values (C15's subject)
+                    sd[j] = 1.0
             M = [[(raw[i][j] - mu[j]) / sd[j] for j in range(t)] for i in range(n)]
         build = lambda enc, k: get_class(fam, enc).from_gmat_gpmod(gmat=g, gpmod=algmod, unscale=unscale, **std_args(enc, n, k, nlat_f))
     elif route in ("from_numpy", "from_gmat_algpmod"):
@@ -902,7 +916,7 @@ def check_fac_bv(case):
     else:
         raise KeyError(route)
     nlat_f = t if fam != "family" else t + len(set(pop["grp"].tolist()))
-    boundary = case.get("mode", "random").startswith("fixed") and fam in ("wgs", "gwgebv")
+    boundary = fam in ("wgs", "gwgebv")      # defined values can only be non-finite through a weight at frequency 0
     bcls = "wgebv-nonfinite-at-boundary-frequency:%s:%s" % (fam, route)
     for enc in ENCS:
         tag = "%s/%s.%s" % (fam, enc, route)
@@ -1384,6 +1398,8 @@ def check_fac_uc(case):
 def hap_blocks(g, nhaploblk):
     """block boundaries (start, stop) -- the block partition itself is C18's subject and is taken from the library"""
     from pybrops.core.util.haplo import nhaploblk_chrom, haplobin, haplobin_bounds
+    if nhaploblk < len(g.vrnt_chrgrp_stix):
+        return None                                    # fewer blocks than chromosomes: not a valid input
     nblk = nhaploblk_chrom(nhaploblk, g.vrnt_genpos, g.vrnt_chrgrp_stix, g.vrnt_chrgrp_spix)
     if numpy.any(nblk > g.vrnt_chrgrp_len):
         return None
@@ -1513,7 +1529,10 @@ def check_fac_embv(case):
         try:
             prob = build(enc, min(2, nx))
         except Exception as e:
-            fails.append(("factory-crash:embv", "%s raised %s: %s" % (tag, type(e).__name__, e)))
+            c = "factory-crash:embv"
+            if isinstance(e, IndexError) and nrep > nx:
+                c = "embv-replicate-loop-overwrites-cross-index"      # row nrep-1 does not exist: same defect
+            fails.append((c, "%s (nrep=%d, %d crosses) raised %s: %s" % (tag, nrep, nx, type(e).__name__, e)))
             continue
         calls = stubs[-1].calls
         if not _exact(numpy.asarray(prob.decn_space_xmap), numpy.array(xm, dtype="int64")):
@@ -1532,3 +1551,494 @@ def check_fac_embv(case):
             exp = [-v for v in _wmean_cols(EM, [c / tot for c in counts])]
             latent_all_encodings(None, build, counts, exp, fails, "embv.factory", cls="factory-latent:embv")
     return fails
+
+
+# --------------------------------------------------------------------------
+# kind 'mat': the two anchored model matrices (weighted GEBV, expected maximum BV)
+# --------------------------------------------------------------------------
+def check_wgebvmat(case):
+    from pybrops.model.wgebvmat.DenseWeightedGenomicEstimatedBreedingValueMatrix import DenseWeightedGenomicEstimatedBreedingValueMatrix as W
+    seed, n, t = case["seed"], case["n"], case["t"]
+    mode = case.get("mode", "random")
+    pop = make_pop(seed, n, case.get("p", 6), t, mode)
+    g, algmod = pop_objects(pop, case.get("phased", True))
+    fails = []
+    with warnings.catch_warnings():
+        warnings.simplefilter("ignore")
+        out = W.from_algmod(algmod=algmod, gmat=g)
+        raw = numpy.asarray(out.unscale())
+    if raw.shape != (n, t):
+        return [("wgebvmat-shape", "shape %r" % (raw.shape,))]
+    if not (_exact(out.taxa, numpy.array(pop["names"], dtype=object)) and _exact(out.taxa_grp, pop["grp"])):
+        fails.append(("wgebvmat-taxa-order", "taxa %r / groups %r, population %r / %r" % (list(out.taxa), list(out.taxa_grp), pop["names"], pop["grp"].tolist())))
+    if not numpy.all(numpy.isfinite(raw)):
+        fa = pop_fafreq(pop)
+        at1 = [(j, tt) for j in range(pop["p"]) for tt in range(t) if fa[j][tt] is not None and fa[j][tt][0] == fa[j][tt][1]]
+        fails.append(("wgebvmat-nan-at-favourable-frequency-one" if at1 else "wgebvmat-nonfinite",
+                      "weighted GEBVs %r are not finite; loci/traits with favourable allele fixed: %r" % (raw.tolist(), at1)))
+        return fails
+    # weighted GEBV is a per-locus reweighting of the additive effects that keeps their sign: for every locus and trait
+    # value_i = sum_l Z_il u_lt weight_lt with weight > 0.  Taxa with identical genotypes get identical values, and
+    # the same population listed in another taxon order gives the same values per taxon.
+    perm = numpy.random.RandomState(seed + 3).permutation(n)
+    pop2 = dict(pop)
+    pop2["ph"] = pop["ph"][:, perm, :]
+    pop2["names"] = [pop["names"][i] for i in perm]
+    pop2["grp"] = pop["grp"][perm]
+    g2, algmod2 = pop_objects(pop2, case.get("phased", True))
+    with warnings.catch_warnings():
+        warnings.simplefilter("ignore")
+        raw2 = numpy.asarray(W.from_algmod(algmod=algmod2, gmat=g2).unscale())
+    if not _close(raw2, raw[perm].tolist(), 1e-8):
+        fails.append(("wgebvmat-taxa-order", "values after reordering the taxa %r, expected the same values per taxon %r" % (raw2.tolist(), raw[perm].tolist())))
+    return fails
+
+
+def check_embvmat(case):
+    """for a completely homozygous taxon every doubled-haploid progeny equals the taxon, so its expected
+    maximum breeding value is its own genomic breeding value, whatever is drawn"""
+    from pybrops.model.embvmat.DenseExpectedMaximumBreedingValueMatrix import DenseExpectedMaximumBreedingValueMatrix as E
+    from pybrops.core.random import prng
+    seed, n, t = case["seed"], case["n"], case["t"]
+    pop = make_pop(seed, n, case.get("p", 6), t, "inbred")
+    # one heterozygous taxon with recombination switched off: its progeny are copies of one of its two gametes
+    het = case.get("het", False)
+    if het:
+        pop["ph"][1, 0, :] = 1 - pop["ph"][0, 0, :]
+        pop["xoprob"][1:] = 0.0
+    g, algmod = pop_objects(pop, True)
+    prng.seed(seed)
+    nprog = case.get("nprogeny", 3)
+    nrep = case.get("nrep", 2)
+    if case.get("arrays"):
+        nprog = numpy.repeat(nprog, n)
+        nrep = numpy.repeat(nrep, n)
+    out = E.from_gmod(gmod=algmod, pgmat=g, nprogeny=nprog, nrep=nrep)
+    raw = numpy.asarray(out.unscale())
+    gebv = pop_gebv(pop)
+    fails = []
+    if raw.shape != (n, t):
+        return [("embvmat-shape", "shape %r" % (raw.shape,))]
+    if not (_exact(out.taxa, numpy.array(pop["names"], dtype=object)) and _exact(out.taxa_grp, pop["grp"])):
+        fails.append(("embvmat-taxa-order", "taxa %r, population %r" % (list(out.taxa), pop["names"])))
+    for i in range(n):
+        if het and i == 0:
+            u = pop["u"].tolist()
+            gam = [[float(pop["beta0"][tt]) + sum(2 * int(pop["ph"][m][0][l]) * u[l][tt] for l in range(pop["p"])) for tt in range(t)] for m in range(2)]
+            for tt in range(t):
+                lo, hi = min(gam[0][tt], gam[1][tt]), max(gam[0][tt], gam[1][tt])
+                if not (lo - 1e-9 * (1 + abs(lo)) <= raw[i][tt] <= hi + 1e-9 * (1 + abs(hi))):
+                    fails.append(("embvmat-value", "heterozygous taxon 0 trait %d: %r outside [%r, %r] spanned by its two doubled gametes" % (tt, raw[i][tt], lo, hi)))
+        elif not _close(raw[i], gebv[i], 1e-8):
+            fails.append(("embvmat-value", "homozygous taxon %d (%s): expected maximum BV %r, its own breeding value %r" % (i, pop["names"][i], raw[i].tolist(), gebv[i])))
+    return fails
+
+
+# --------------------------------------------------------------------------
+# kind 'ev': evalfn / _evaluate of one class with declared weights and transformations
+# --------------------------------------------------------------------------
+def check_ev(case):
+    fam, enc, n, t = case["fam"], case["enc"], case["n"], case["t"]
+    d = make_data(fam, case["seed"], n, t, case.get("special"))
+    fails = []
+    if fam in SUBSET_ONLY:
+        xs = [numpy.array(case["sel"], dtype="int64"), numpy.array(case["sel"][::-1], dtype="int64")]
+        k = len(case["sel"])
+    else:
+        weights = case["weights"]
+        cand = [(e, lab, x) for e, lab, x in encodings(weights, case.get("scale", 2.0), case["seed"] + 17) if e == enc and not lab.startswith("multiset")]
+        if not cand:
+            return "skip"
+        xs = [x for _, _, x in cand]
+        k = min(int(sum(weights)), n)
+    prob, book, l = build_problem(fam, enc, d, k, case.get("ev"), maxcount=64)
+    tag = "%s/%s" % (fam, enc)
+    with warnings.catch_warnings():
+        warnings.simplefilter("ignore")
+        for x in xs[:3]:
+            lat = numpy.asarray(prob.latentfn(x))
+            check_evalfn(prob, book, x, lat, fails, tag)
+        same = [x for x in xs if x.shape == xs[0].shape and x.dtype == xs[0].dtype]
+        for b in book.values():
+            if isinstance(b["fn"], _Rec):
+                del b["fn"].calls[:]
+        check_evaluate(prob, same[:3], fails, tag)
+    # declared weights are what the problem reports as its weights
+    for part, attr in (("obj", "obj_wt"), ("ineq", "ineqcv_wt"), ("eq", "eqcv_wt")):
+        got = numpy.asarray(getattr(prob, attr), dtype=float).tolist()
+        if got != book[part]["w"]:
+            fails.append(("declared-weights", "%s %s=%r, declared %r" % (tag, attr, got, book[part]["w"])))
+    return fails
+
+
+def check_trans(case):
+    """the helper transformations of trans.py against their one-line definitions"""
+    from pybrops.breed.prot.sel.prob import trans as T
+    rs = numpy.random.RandomState(case["seed"])
+    l, nd = case["l"], case["nd"]
+    lat = rs.normal(size=l) * rs.choice([1.0, 1e3])
+    x = rs.uniform(0, 1, nd)
+    wt = rs.normal(size=l)
+    fails = []
+    lat0, x0 = lat.copy(), x.copy()
+    r = T.trans_identity(x, lat)
+    if not _exact(r, lat0):
+        fails.append(("trans-identity", "identity returned %r for %r" % (numpy.asarray(r).tolist(), lat0.tolist())))
+    r = numpy.asarray(T.trans_sum(x, lat))
+    if r.shape != (1,) or not _close(r, [math.fsum(lat0.tolist())], 1e-12):
+        fails.append(("trans-sum", "sum returned %r for %r" % (r.tolist(), lat0.tolist())))
+    r = numpy.asarray(T.trans_dot(x, lat, latentvec_wt=wt))
+    if r.shape != (1,) or not _close(r, [math.fsum(a * b for a, b in zip(lat0.tolist(), wt.tolist()))], 1e-11):
+        fails.append(("trans-dot", "dot returned %r" % r.tolist()))
+    r = numpy.asarray(T.trans_empty(x, lat))
+    if r.shape != (0,):
+        fails.append(("trans-empty", "empty returned shape %r" % (r.shape,)))
+    for target in (1.0, 0.0, 2.5):
+        r = numpy.asarray(T.trans_decnvec_sum_eq(x, lat, decnvec_sum=target))
+        if r.shape != (1,) or not _close(r, [abs(math.fsum(x0.tolist()) - target)], 1e-12):
+            fails.append(("trans-decnvec-sum-eq", "returned %r for sum %r target %r" % (r.tolist(), math.fsum(x0.tolist()), target)))
+    r = numpy.asarray(T.trans_decnvec_sum_eq(x, lat))
+    if not _close(r, [abs(math.fsum(x0.tolist()) - 1.0)], 1e-12):
+        fails.append(("trans-decnvec-sum-eq", "default target is not 1: %r" % r.tolist()))
+    if not (_exact(lat, lat0) and _exact(x, x0)):
+        fails.append(("trans-mutates-input", "a transformation changed its arguments"))
+    return fails
+
+
+# --------------------------------------------------------------------------
+# dispatcher, replay
+# --------------------------------------------------------------------------
+KINDS = {
+    "enc": check_enc, "sub": check_subset_only, "ev": check_ev, "trans": check_trans,
+    "fac-bv": check_fac_bv, "fac-random": check_fac_random, "fac-kin": check_fac_kin, "fac-l2": check_fac_l2,
+    "fac-l1": check_fac_l1, "fac-af": check_fac_af, "fac-uc": check_fac_uc, "fac-ohv": check_fac_ohv,
+    "fac-embv": check_fac_embv, "wgebvmat": check_wgebvmat, "embvmat": check_embvmat,
+}
+
+
+def case_failures(case):
+    """list of (cls, message) for one case, or 'skip'"""
+    with numpy.errstate(all="ignore"):
+        return KINDS[case["kind"]](case)
+
+
+def run_case(case):
+    """(violated, message); a stored failing input carries 'only_cls' = the class it failed with"""
+    res = case_failures({k: v for k, v in case.items() if k != "only_cls"})
+    if res == "skip":
+        return False, "skipped (not a valid input of this property)"
+    if case.get("only_cls"):
+        res = [f for f in res if f[0] == case["only_cls"]]
+    if not res:
+        return False, "ok"
+    return True, " || ".join("[%s] %s" % f for f in res[:4])[:3000]
+
+
+def _replay(case):
+    try:
+        return run_case(case)
+    except Exception as e:
+        return True, "exception %s: %s" % (type(e).__name__, e)
+
+
+def _drive(ctx, cases, cap=3):
+    seen = {}
+    for case in cases:
+        try:
+            res = case_failures(case)
+        except Exception as e:
+            import traceback
+            res = [("crash:%s:%s" % (case["kind"], case.get("fam", "")), "exception %s: %s\n%s" % (type(e).__name__, e, traceback.format_exc()[-900:]))]
+        skip = (res == "skip")
+        ctx.case(key=repr(sorted(case.items(), key=str)), nontrivial=not skip,
+                 sample={k: case[k] for k in ("kind", "fam", "enc", "route", "n", "t", "weights", "sel") if k in case})
+        if skip:
+            continue
+        done = set()
+        for cls, msg in res:
+            if cls in done:
+                continue
+            done.add(cls)
+            seen[cls] = seen.get(cls, 0) + 1
+            if seen[cls] <= cap:
+                ctx.fail_input("ring:%s" % cls, dict(case, only_cls=cls), cls=cls, message=msg)
+
+
+# --------------------------------------------------------------------------
+# case generators (all randomness from ctx.rng)
+# --------------------------------------------------------------------------
+def _rand_wspec(rng, allow_none=True):
+    r = rng.random()
+    if r < 0.3 and allow_none:
+        return None
+    if r < 0.55:
+        return rng.choice([1.0, -1.0, 0.0, 2.5, -0.125, 3, 1e6])
+    return [rng.choice([1.0, -1.0, 0.0, 0.5, -3.0, 7.0]) for _ in range(12)]
+
+
+def _rand_tspec(rng, part):
+    if part == "obj":
+        kind = rng.choice([None, "identity", "sum", "dot", "rec", "rec"])
+    else:
+        kind = rng.choice([None, None, "empty", "identity", "sum", "dot", "decnsum", "rec"])
+    if kind is None:
+        return None
+    if kind == "dot":
+        return ["dot", [rng.choice([0.0, 1.0, -2.0, 0.5]) for _ in range(12)]]
+    if kind == "decnsum":
+        return ["decnsum", rng.choice([1.0, 0.0, 3.0])]
+    if kind == "rec":
+        return ["rec", rng.choice([1.0, -2.0, 0.5]), rng.choice([0.0, 1.0, -3.0]), rng.choice([None, 2.0, -1.0])]
+    return [kind]
+
+
+def _rand_ev(rng):
+    ev = {}
+    for part in ("obj", "ineq", "eq"):
+        ts = _rand_tspec(rng, part)
+        ws = _rand_wspec(rng)
+        if part != "obj" and ts is None and rng.random() < 0.7:
+            ws = None
+        ev[part] = [ts, ws]
+    return ev
+
+
+def _rand_weights(rng, n):
+    mode = rng.choice(["set", "set", "counts", "counts-small", "real", "one", "all", "bigcounts"])
+    if mode == "set":
+        k = rng.randint(1, n)
+        chosen = set(rng.sample(range(n), k))
+        return [1 if i in chosen else 0 for i in range(n)]
+    if mode == "counts":
+        w = [rng.choice([0, 0, 1, 2, 3]) for _ in range(n)]
+    elif mode == "counts-small":           # repeated members but still no longer than the candidate list
+        w = [0] * n
+        for _ in range(rng.randint(1, n)):
+            w[rng.randrange(n)] += 1
+    elif mode == "real":
+        w = [rng.choice([0.0, rng.uniform(0.01, 1.0), rng.uniform(0.01, 1.0)]) for _ in range(n)]
+    elif mode == "one":
+        w = [0] * n
+        w[rng.randrange(n)] = 1
+    elif mode == "all":
+        return [1] * n
+    else:
+        w = [rng.choice([0, 1, 5, 18]) for _ in range(n)]
+    if sum(w) == 0:
+        w[rng.randrange(n)] = 1
+    return w
+
+
+def gen_enc(rng, tier, fams=FOUR):
+    reps = 300 if tier == "quick" else 6000
+    for fam in fams:
+        # fixed edge cases: one candidate, everybody, contributions below the 1e-10 guard
+        yield dict(kind="enc", fam=fam, seed=rng.randrange(10 ** 6), n=1, t=1, weights=[1], scale=0.5)
+        yield dict(kind="enc", fam=fam, seed=rng.randrange(10 ** 6), n=1, t=2, weights=[3], scale=2.0)
+        yield dict(kind="enc", fam=fam, seed=rng.randrange(10 ** 6), n=4, t=2, weights=[1, 1, 1, 1], scale=1e-6, special="ties")
+        for wts in ([3e-12, 0.0, 1e-12, 2e-12], [2e-11, 2e-11, 0.0, 5e-11]):
+            yield dict(kind="enc", fam=fam, seed=rng.randrange(10 ** 6), n=4, t=2, weights=wts, scale=0.5, tiny=True)
+        # just above the guard: must behave like any other vector
+        yield dict(kind="enc", fam=fam, seed=rng.randrange(10 ** 6), n=3, t=1, weights=[6e-11, 5e-11, 0.0], scale=4.0)
+        for _ in range(reps):
+            n = rng.choice([1, 2, 3, 4, 5, 6, 8])
+            case = dict(kind="enc", fam=fam, seed=rng.randrange(10 ** 6), n=n, t=rng.choice([1, 2, 3]), weights=_rand_weights(rng, n),
+                        scale=rng.choice([0.5, 3.0, 1e-3, 1e6, 7.25, 1.0 / 3.0]), special=rng.choice([None, None, "ties", "zeros", "big"]))
+            if rng.random() < 0.5:
+                case["ev"] = _rand_ev(rng)
+            yield case
+
+
+def gen_sub(rng, tier):
+    reps = 1200 if tier == "quick" else 20000
+    for fam in SUBSET_ONLY:
+        yield dict(kind="sub", fam=fam, seed=rng.randrange(10 ** 6), n=1, t=1, sel=[0])
+        for _ in range(reps):
+            n = rng.choice([1, 2, 3, 4, 5, 7])
+            k = rng.randint(1, n)
+            case = dict(kind="sub", fam=fam, seed=rng.randrange(10 ** 6), n=n, t=rng.choice([1, 2, 3]), sel=rng.sample(range(n), k),
+                        special=rng.choice([None, "ties", "zeros", "het-targets", "het-targets"] if fam in ("pau", "mogs") else [None, "ties", "zeros", "big"]))
+            if rng.random() < 0.4:
+                case["ev"] = _rand_ev(rng)
+            yield case
+    # selections whose size makes 1/(ploidy*k) * count round below 1 at a fixed locus (2k = 98, 103*2, ...)
+    for fam in ("mogs", "pafd"):
+        for k in (49, 98, 103, 7):
+            yield dict(kind="sub", fam=fam, seed=1, n=k, t=1, sel=list(range(k)), cls_override="fixed-locus-frequency-reciprocal-rounding:%s" % fam,
+                       override=dict(geno=[[2, 0, 1]] * k, mkrwt=[[1.0], [1.0], [1.0]], tfreq=[[0.0], [1.0], [0.5]]))
+
+
+def gen_ev(rng, tier):
+    reps = 60 if tier == "quick" else 1200
+    for fam, enc in all_classes():
+        for _ in range(reps):
+            n = rng.choice([1, 2, 3, 5])
+            case = dict(kind="ev", fam=fam, enc=enc, seed=rng.randrange(10 ** 6), n=n, t=rng.choice([1, 2, 3]), ev=_rand_ev(rng),
+                        scale=rng.choice([0.5, 3.0]))
+            if fam in SUBSET_ONLY:
+                case["sel"] = rng.sample(range(n), rng.randint(1, n))
+            else:
+                w = _rand_weights(rng, n)
+                if enc in ("Subset", "Binary"):
+                    w = [1 if v else 0 for v in w]
+                elif enc == "Integer":
+                    w = [int(math.ceil(v)) for v in w]
+                case["weights"] = w
+            yield case
+    for _ in range(200 if tier == "quick" else 5000):
+        yield dict(kind="trans", seed=rng.randrange(10 ** 6), l=rng.choice([1, 2, 3, 9, 40]), nd=rng.choice([1, 2, 5, 17]))
+
+
+def gen_fac_bv(rng, tier):
+    reps = 20 if tier == "quick" else 300
+    for _ in range(reps):
+        for fam in ("ebv", "gebv", "family"):
+            for scaled in (True, False):
+                for unscale in (True, False):
+                    yield dict(kind="fac-bv", fam=fam, route="from_bvmat", seed=rng.randrange(10 ** 6), n=rng.choice([1, 2, 5, 7]), t=rng.choice([1, 2, 3]),
+                               scaled=scaled, unscale=unscale)
+        for phased in (True, False):
+            for unscale in (True, False):
+                yield dict(kind="fac-bv", fam="gebv", route="from_gmat_gpmod", seed=rng.randrange(10 ** 6), n=rng.choice([1, 2, 5, 7]), t=rng.choice([1, 2, 3]),
+                           p=rng.choice([1, 3, 6, 11]), phased=phased, unscale=unscale, mode=rng.choice(["random", "fixed", "inbred"]))
+        for fam in ("wgs", "gwgebv"):
+            for route in ("from_numpy", "from_gmat_algpmod"):
+                for mode in ("random", "fixed", "inbred", "fixed-inbred"):
+                    for phased in ((False, True) if route == "from_gmat_algpmod" else (False,)):
+                        yield dict(kind="fac-bv", fam=fam, route=route, seed=rng.randrange(10 ** 6), n=rng.choice([1, 2, 5, 7]), t=rng.choice([1, 2, 3]),
+                                   p=rng.choice([1, 3, 6, 11]), mode=mode, phased=phased, alpha=rng.choice([0.0, 0.5, 1.0, 0.3]), zfloat=rng.random() < 0.5)
+        yield dict(kind="fac-random", seed=rng.randrange(10 ** 6), n=rng.choice([1, 2, 5]), t=rng.choice([1, 2, 3]))
+        for mode in ("random", "fixed", "inbred"):
+            for phased in (True, False):
+                yield dict(kind="wgebvmat", seed=rng.randrange(10 ** 6), n=rng.choice([2, 5, 7]), t=rng.choice([1, 2]), p=rng.choice([2, 6, 11]), mode=mode, phased=phased)
+
+
+def gen_fac_kin(rng, tier):
+    reps = 15 if tier == "quick" else 250
+    for _ in range(reps):
+        for fam in ("ocs", "mgr", "meh"):
+            for cmat in ("stub", "molecular"):
+                for phased in (True, False):
+                    yield dict(kind="fac-kin", fam=fam, seed=rng.randrange(10 ** 6), n=rng.choice([1, 2, 4, 6]), t=rng.choice([1, 2]), p=rng.choice([1, 3, 8, 12]),
+                               cmat=cmat, phased=phased, mode=rng.choice(["random", "inbred", "fixed"]), scaled=rng.random() < 0.5, unscale=rng.random() < 0.5)
+        for cmat in ("stub", "weighted"):
+            for t in (1, 2, 3):
+                yield dict(kind="fac-l2", seed=rng.randrange(10 ** 6), n=rng.choice([2, 4, 5]), t=t, p=rng.choice([6, 9]), cmat=cmat, phased=rng.random() < 0.5)
+
+
+def gen_fac_af(rng, tier):
+    reps = 40 if tier == "quick" else 800
+    for _ in range(reps):
+        yield dict(kind="fac-l1", seed=rng.randrange(10 ** 6), n=rng.choice([1, 2, 5]), t=rng.choice([1, 2, 3]), p=rng.choice([1, 2, 6]), mode=rng.choice(["random", "fixed"]))
+        for fam in ("pafd", "pau", "mogs"):
+            for callable_ in (True, False):
+                for phased in (True, False):
+                    yield dict(kind="fac-af", fam=fam, seed=rng.randrange(10 ** 6), n=rng.choice([1, 3, 5]), t=rng.choice([1, 2]), p=rng.choice([1, 4, 7]),
+                               callable=callable_, phased=phased, mode=rng.choice(["random", "fixed", "inbred"]), k=rng.choice([1, 2, 3]),
+                               het_targets=(not callable_ and rng.random() < 0.6))
+
+
+def gen_fac_x(rng, tier):
+    reps = 15 if tier == "quick" else 200
+    for _ in range(reps):
+        for vmat in ("stub", "real"):
+            for xmap in ("given", None):
+                for unique in (True, False):
+                    yield dict(kind="fac-uc", seed=rng.randrange(10 ** 6), n=rng.choice([2, 3, 4]), t=rng.choice([1, 2]), p=rng.choice([3, 6]), vmat=vmat, xmap=xmap,
+                               unique=unique, q=rng.choice([0.05, 0.2, 0.5, 1.0]), ncross=rng.choice([1, 3]), nprogeny=rng.choice([5, 40]),
+                               nself=rng.choice([0, 0, 2]) if vmat == "stub" else 0)
+        for npar in (1, 2, 3):
+            for unique in (True, False):
+                yield dict(kind="fac-ohv", fam="ohv", seed=rng.randrange(10 ** 6), n=rng.choice([3, 4, 5]), t=rng.choice([1, 2]), p=rng.choice([6, 8, 10]),
+                           nparent=npar, unique=unique, nhaploblk=rng.choice([1, 2, 3, 4]), nchr=rng.choice([1, 2]), mode=rng.choice(["random", "inbred"]))
+        yield dict(kind="fac-ohv", fam="opv", seed=rng.randrange(10 ** 6), n=rng.choice([1, 3, 5]), t=rng.choice([1, 2]), p=rng.choice([6, 8]),
+                   nhaploblk=rng.choice([1, 2, 3]), nchr=rng.choice([1, 2]))
+        for nrep in (1, 2, 3):
+            n_ = rng.choice([2, 3, 4])
+            yield dict(kind="fac-embv", seed=rng.randrange(10 ** 6), n=n_, t=rng.choice([1, 2]), nparent=rng.choice([1, 2, 3][:n_]),
+                       unique=rng.random() < 0.5, nrep=nrep, nmating=rng.choice([1, 2]), nprogeny=rng.choice([1, 4]))
+        # the only shape on which the replicate loop cannot go wrong: one cross, one replicate
+        yield dict(kind="fac-embv", seed=rng.randrange(10 ** 6), n=2, t=2, nparent=2, unique=True, nrep=1)
+        for het in (False, True):
+            yield dict(kind="embvmat", seed=rng.randrange(10 ** 6), n=rng.choice([1, 3, 4]), t=rng.choice([1, 2]), het=het, arrays=rng.random() < 0.5,
+                       nprogeny=rng.choice([1, 4]), nrep=rng.choice([1, 3]))
+    # more than 1024 crosses: the chunked computation of the optimal haploid values (45*46/2 = 1035)
+    yield dict(kind="fac-ohv", fam="ohv", seed=rng.randrange(10 ** 6), n=45, t=1, p=5, nparent=2, unique=False, nhaploblk=2, nchr=1)
+    if tier == "thorough":
+        yield dict(kind="fac-ohv", fam="ohv", seed=rng.randrange(10 ** 6), n=47, t=2, p=7, nparent=2, unique=True, nhaploblk=3, nchr=1)
+        yield dict(kind="fac-ohv", fam="ohv", seed=rng.randrange(10 ** 6), n=20, t=1, p=6, nparent=3, unique=True, nhaploblk=2, nchr=2)
+
+
+# --------------------------------------------------------------------------
+# units
+# --------------------------------------------------------------------------
+_T = lambda *names: ["pybrops/breed/prot/sel/prob/%s.py" % n for n in names]
+
+U_ENC_A = "ring[latent = definition; subset/integer/binary/real agree; order & scale invariance: EBV GEBV wGEBV gwGEBV random UC OHV EMBV]"
+U_ENC_B = "ring[latent = definition; subset/integer/binary/real agree; order & scale invariance: OCS MGR MEH L1 L2 family]"
+U_SUB = "ring[subset-only criteria OPV PAFD PAU MOGS = definition, order invariance]"
+U_EV = "ring[evalfn/_evaluate = declared weights x declared transformations, all 60 classes]"
+U_FBV = "ring[factories hold population data in taxon order: EBV GEBV wGEBV gwGEBV family random, wGEBV matrix]"
+U_FKIN = "ring[factories hold population data in taxon order: OCS MGR MEH L2 kinship factors]"
+U_FAF = "ring[factories hold population data in taxon order: L1 PAFD PAU MOGS]"
+U_FX = "ring[factories hold population data in taxon order: UC OHV OPV EMBV cross maps, EMBV matrix]"
+
+
+@unit(P, U_ENC_A, "R", bounded=True,
+      note="bounded: n<=8 candidates/crosses, t<=3 traits, counts<=18, seeded random data incl. ties/zeros/1e8 magnitudes; 306 (quick) / 6006 (thorough) cases per criterion")
+def u_ring_enc_a(ctx):
+    ctx.rule = ("per criterion: seeded data, a contribution vector (subset, repeated members, integer counts, real shares, one, all, below/above the 1e-10 guard); "
+                "every encoding of it is evaluated on the real class and compared with the definition computed by loops; distinct by data seed + contributions")
+    _drive(ctx, gen_enc(ctx.rng, ctx.tier, ("ebv", "gebv", "wgs", "gwgebv", "random", "uc", "ohv", "embv")))
+
+
+@unit(P, U_ENC_B, "R", bounded=True,
+      note="bounded: n<=8 candidates, t<=3 traits, <=5 loci, random SPD kinships; 306 (quick) / 6006 (thorough) cases per criterion")
+def u_ring_enc_b(ctx):
+    ctx.rule = ("as the first unit for the kinship-norm, allele-frequency-distance and family criteria; kinship = random SPD matrix, "
+                "problem gets its Cholesky factor, the oracle the matrix itself")
+    _drive(ctx, gen_enc(ctx.rng, ctx.tier, ("ocs", "mgr", "meh", "l1", "l2", "family")))
+
+
+@unit(P, U_SUB, "R", bounded=True,
+      note="bounded: n<=7 taxa, <=6 loci, <=3 blocks, t<=3; 1201 (quick) / 20001 (thorough) cases per criterion + 8 selection sizes 7..103 for rounding")
+def u_ring_sub(ctx):
+    ctx.rule = "seeded genotype/haplotype data, every selection listed in 3 orders; allele availability decided on integer counts; distinct by seed + selection"
+    _drive(ctx, gen_sub(ctx.rng, ctx.tier))
+
+
+@unit(P, U_EV, "R", bounded=True,
+      note="bounded: 60 (quick) / 1200 (thorough) random weight/transformation declarations per class x 60 classes; weights None/scalar/array incl. 0, negative, int")
+def u_ring_ev(ctx):
+    ctx.rule = ("for each of the 60 classes: random declared obj/ineqcv/eqcv weights and transformations (identity, sum, dot, empty, decision-sum, a recording "
+                "function with kwargs); evalfn and _evaluate (1-D, 2-D) compared EXACTLY with weight_i * T_i(x, latent, **kwargs)")
+    _drive(ctx, gen_ev(ctx.rng, ctx.tier))
+
+
+@unit(P, U_FBV, "R", bounded=True, note="bounded: n<=7 taxa, <=11 loci, t<=3; 20 (quick) / 300 (thorough) rounds over all factory x option combinations (47 cases per round)")
+def u_ring_fbv(ctx):
+    ctx.rule = ("seeded populations with unsorted taxon names/groups, scaled and unscaled breeding value matrices, phased and unphased genotypes, fixed loci and zero effects; "
+                "stored matrices compared per taxon with values computed by loops, then latent values in all encodings")
+    _drive(ctx, gen_fac_bv(ctx.rng, ctx.tier))
+
+
+@unit(P, U_FKIN, "R", bounded=True, note="bounded: n<=6 taxa, <=12 loci, t<=3; 15 (quick) / 250 (thorough) rounds of 18 cases; molecular kinship and a stub factory with a known matrix")
+def u_ring_fkin(ctx):
+    ctx.rule = "C upper triangular with C'C = independently computed kinship (taxon order), sqrt(c'Kc) in all encodings; MEH also against pool heterozygosity"
+    _drive(ctx, gen_fac_kin(ctx.rng, ctx.tier))
+
+
+@unit(P, U_FAF, "R", bounded=True, note="bounded: n<=5 taxa, <=7 loci, t<=3; 40 (quick) / 800 (thorough) rounds of 13 cases")
+def u_ring_faf(ctx):
+    ctx.rule = "stored genotype counts / weights / targets equal the population's and the declared functions of the marker effects; latent = definition"
+    _drive(ctx, gen_fac_af(ctx.rng, ctx.tier))
+
+
+@unit(P, U_FX, "R", bounded=True, note="bounded: n<=5 taxa (one case 45 taxa = 1035 crosses), <=10 loci, <=4 blocks, nparent<=3; 15 (quick) / 200 (thorough) rounds of 21 cases")
+def u_ring_fx(ctx):
+    ctx.rule = ("cross map = lexicographic parent combinations; UC through a stub variance factory with a known asymmetric variance array and through the real "
+                "two-way DH factory; OHV/OPV from block values computed by loops; EMBV with a deterministic stand-in mating protocol")
+    _drive(ctx, gen_fac_x(ctx.rng, ctx.tier))
+
+
+REPLAYERS = {name: _replay for name in (U_ENC_A, U_ENC_B, U_SUB, U_EV, U_FBV, U_FKIN, U_FAF, U_FX)}
